@@ -23,7 +23,7 @@ COQ = os.path.join(VERIF, "coq")
 HARNESS = os.path.join(VERIF, "harness")
 BUILD = os.path.join(VERIF, ".build")
 BIN = os.path.join(BUILD, "bin")
-REPO = "/repo"
+REPO = os.environ.get("VERIF_REPO", "/repo")
 
 GOENV = dict(GOFLAGS="-mod=mod", GOPROXY="off", GOSUMDB="off", GOTOOLCHAIN="local",
              CGO_ENABLED="1")
@@ -218,11 +218,12 @@ def regen_consts(group, gocmd_bin, args="-consts"):
 
 
 def go_build(cmd, tags="verif", timeout=900):
+    """Build one harness command against the repository working tree (hooks on)."""
     os.makedirs(BIN, exist_ok=True)
-    if not os.path.exists(os.path.join(HARNESS, "go.sum")) or \
-            os.path.getmtime(os.path.join(REPO, "go.sum")) > os.path.getmtime(os.path.join(HARNESS, "go.sum")):
-        pass
-    rc, out, dt = sh("go build -tags %s -o %s ./cmd/%s" % (tags, os.path.join(BIN, cmd), cmd),
+    modfile = ""
+    if os.environ.get("VERIF_GOMOD"):      # used by tools/mutrun.sh to point the replace at a scratch worktree
+        modfile = "-modfile=%s " % os.environ["VERIF_GOMOD"]
+    rc, out, dt = sh("go build %s-tags %s -o %s ./cmd/%s" % (modfile, tags, os.path.join(BIN, cmd), cmd),
                      cwd=HARNESS, timeout=timeout)
     return rc == 0, out, dt
 
